@@ -9,6 +9,7 @@ Part S  every shipped discipline class that can be built without arguments and h
 from __future__ import annotations
 
 import itertools
+import time
 import os
 
 import numpy as np
@@ -39,13 +40,15 @@ def J(a, b):
     return {"y": {"a": np.array([[2 * a[0]]]), "b": np.array([[3 * b[1], 3 * b[0]]])}, "z": {"a": np.array([[b[0]], [-1.0]]), "b": np.array([[a[0], 0.0], [0.0, 1.0]])}}
 
 
-def _disc_cls(sparse, selfc, inplace=False):
+def _disc_cls(sparse, selfc, inplace=False, fd=False):
     from gemseo.core.discipline import Discipline
     from scipy.sparse import csr_array
 
     class D(Discipline):
         def __init__(self):
             super().__init__(name="D")
+            if fd:  # the Jacobian is approximated: the body runs at perturbed points, which pass through the cache
+                self.linearization_mode = self.LinearizationMode.FINITE_DIFFERENCES
             self.input_grammar.update_from_names(["a", "b"])
             self.output_grammar.update_from_names(["y", "z"] + (["b"] if selfc else []))
             self.default_input_data = {"a": np.array(DEFAULT[0]), "b": np.array(DEFAULT[1])}
@@ -85,7 +88,8 @@ class World:
     def __init__(self, policy, variant, scratch):
         self.policy, self.variant = policy, variant
         self.sparse, self.selfc = variant == "sparse", variant in ("selfc", "selfc_inplace")
-        self.d = _disc_cls(self.sparse, self.selfc, variant == "selfc_inplace")()
+        self.fd = variant == "fd"
+        self.d = _disc_cls(self.sparse, self.selfc, variant == "selfc_inplace", self.fd)()
         self.last_b = None
         self.last_out = None  # the data returned by the last execution (the caller may modify its arrays)
         self.h5 = os.path.join(scratch, f"c05_{os.getpid()}_{next(_COUNTER)}.h5")
@@ -159,8 +163,12 @@ class Spec:
             ops += [["exec_ret", v] for v in list(VALS)[:2]]
         for v in VALS:
             ops += [["exec", v]] + ([] if inplace else [["exec_alias", v]])
-            if not self.variant.startswith("selfc"):
+            if self.variant == "fd":
+                ops += [["lin_all", v], ["lin_alias", v]]
+            elif not self.variant.startswith("selfc"):
                 ops += [["lin_all", v], ["lin_sub", v]]
+                if self.variant == "dense":
+                    ops.append(["lin_alias", v])  # linearize through the caller's reused arrays
         if not inplace:
             ops.append(["exec_default"])
         if self.variant.startswith("selfc") and w.last_b is not None:
@@ -209,7 +217,7 @@ class Spec:
             data = {"a": a.copy(), "b": b.copy()}
         else:
             a, b = (np.array(x) for x in _val(op[1]))
-            if kind == "exec_alias":
+            if kind in ("exec_alias", "lin_alias"):
                 w.shared["a"][:] = a
                 w.shared["b"][:] = b
                 data = {"a": w.shared["a"], "b": w.shared["b"]}
@@ -235,10 +243,14 @@ class Spec:
                 jac = d.linearize(data, compute_all_jacobians=True)
                 pairs = [(o, i) for o in ("y", "z") for i in ("a", "b")]
 
+            # finite differences (default step 1e-7) of the quadratic F: truncation <= step/2 * max|F''| = 3e-7 * 3,
+            # rounding <= 4 eps |F| / step ~ 1e-7; Jacobians of two different alphabet points differ by >= 0.5
+            jtol = 1e-5 if w.fd else 0.0
+
             def chk(ca, cb):
                 ref = J(ca, cb)
                 try:
-                    return all(np.array_equal(_dense(jac[o][i]), ref[o][i]) for o, i in pairs)
+                    return all(np.allclose(_dense(jac[o][i]), ref[o][i], rtol=0, atol=jtol) for o, i in pairs)
                 except KeyError:
                     return False
 
@@ -264,7 +276,8 @@ class Spec:
         tol = self.policy[1]
         cands = [(a, b)]
         if tol:
-            for sa, sb in w.seen:
+            # (fd variant: the perturbed points at which the approximation ran the body are previously seen inputs too)
+            for sa, sb in list(w.seen) + (list(w.d.runs) if w.fd else []):
                 sa, sb = np.array(sa), np.array(sb)
                 if np.linalg.norm(np.concatenate([sa - a, sb - b])) <= 10 * tol * (1 + np.linalg.norm(np.concatenate([a, b]))):
                     cands.append((sa, sb))
@@ -278,6 +291,8 @@ class Spec:
             out.append(({"invariant": inv, **base, "op": last}, f"{inv}: {msg}\n  history={hist}"))
         w.problems = []
         d, tol = w.d, self.policy[1]
+        if w.fd:
+            return out  # perturbed points are legitimately executed and stored: the run / entry counts say nothing here
         if self.full and tol == 0.0:
             distinct = set(w.seen)
             if len(d.runs) > len(distinct):
@@ -336,7 +351,7 @@ class Spec:
 
     def nontrivial(self, hist):
         vals = [op[1] if len(op) > 1 else "default" for op in hist[1:] if op[0] != "reopen"]
-        return len(vals) != len(set(vals)) or any(op[0] in ("exec_alias", "reopen") for op in hist[1:])
+        return len(vals) != len(set(vals)) or any(op[0] in ("exec_alias", "lin_alias", "reopen") for op in hist[1:])
 
 
 # ---- part S: shipped disciplines against an uncached twin ------------------------------------------
@@ -421,6 +436,83 @@ def _shipped_case(case, tally):
         tally.violation({"invariant": bad[0], "cls": name, "cache": cache}, case, f"{bad[0]}: {name} with {cache} cache, history {hist}: {bad[1]}")
 
 
+# ---- part K: inputs whose arrays have identical bytes (equal hashes) but are different inputs -----------------------
+K_FORMS = {
+    "flat": lambda: np.array([2.0, 3.0]),
+    # (oracle boundary: compare_dict_of_arrays deliberately identifies a (1, n) array with the (n,) one, so a "row" form
+    #  is by design the same input as "flat" and is not part of the alphabet)
+    "col": lambda: np.array([[2.0], [3.0]]),
+    "cplx": lambda: np.array([2.0 + 3.0j]),  # one complex number = the bytes of two floats
+    "other": lambda: np.array([3.0, 2.0]),
+}
+
+
+def _k_cls():
+    from gemseo.core.discipline import Discipline
+
+    class K(Discipline):
+        """y = a0 * sum(b, axis=0): a plain reduction whose value and shape depend on the shape / type of b."""
+
+        default_grammar_type = Discipline.GrammarType.SIMPLE
+
+        def __init__(self):
+            super().__init__(name="K")
+            self.input_grammar.update_from_names(["a", "b"])
+            self.output_grammar.update_from_names(["y"])
+            self.default_input_data = {"a": np.array([1.0]), "b": np.array([1.0, 1.0])}
+            self.n = 0
+
+        def _run(self, input_data):
+            self.n += 1
+            return {"y": np.atleast_1d(input_data["b"].sum(axis=0)) * input_data["a"][0]}
+
+    return K
+
+
+def _k_case(case, tally):
+    kind, hist = case["cache"], case["hist"]
+    d = _k_cls()()
+    h5 = os.path.join(case["scratch"], f"c05k_{os.getpid()}_{next(_COUNTER)}.h5")
+    if kind == "memF":
+        d.set_cache(d.CacheType.MEMORY_FULL, is_memory_shared=False)
+    elif kind == "memT":
+        d.set_cache(d.CacheType.MEMORY_FULL, is_memory_shared=True)
+    elif kind == "hdf":
+        d.set_cache(d.CacheType.HDF5, hdf_file_path=h5, hdf_node_path="k")
+    else:
+        d.set_cache(d.CacheType.SIMPLE)
+    bad = None
+    try:
+        for step, form in enumerate(hist):
+            b = K_FORMS[form]()
+            exp = np.atleast_1d(b.sum(axis=0)) * 2.0
+            try:
+                got = np.asarray(d.execute({"a": np.array([2.0]), "b": b})["y"])
+            except Exception as e:
+                bad = ("colliding-input-raises", f"step {step} ({form}): {type(e).__name__}: {str(e)[:200]}")
+                break
+            if got.shape != exp.shape or not np.array_equal(got, exp):
+                bad = ("colliding-input-served-another-inputs-output", f"step {step}: b={b.tolist()} (shape {b.shape}, {b.dtype}) returned y={got.tolist()}, the body gives {exp.tolist()}")
+                break
+        # (oracle boundary: the HDF5 file deliberately keeps the real part of complex data (caches.utils.to_real), so a complex
+        #  input is never found again there; its outputs are recomputed, which is what is checked above)
+        if bad is None and kind != "simple" and not (kind == "hdf" and "cplx" in hist) and d.n > len(set(hist)):
+            bad = ("body-ran-more-than-once-per-input", f"{d.n} runs for {len(set(hist))} distinct inputs")
+    finally:
+        if kind == "hdf":
+            from gemseo.utils.singleton import SingleInstancePerFileAttribute
+
+            for k in [k for k in SingleInstancePerFileAttribute.instances if k[1] == os.path.realpath(h5)]:
+                SingleInstancePerFileAttribute.instances.pop(k, None)
+            if os.path.exists(h5):
+                os.remove(h5)
+    tally.case(("K", kind, tuple(hist)), nontrivial=len(set(hist) - {"other"}) > 1, outcome=f"K:{kind}:runs={d.n}:{'bad' if bad else 'ok'}")
+    tally.traces += 1
+    tally.transitions += len(hist)
+    if bad:
+        tally.violation({"invariant": bad[0], "part": "K", "policy": kind}, {k: v for k, v in case.items() if k != "scratch"}, f"{bad[0]}: {kind} cache, history {hist}: {bad[1]}")
+
+
 def _run_policy(policy, variant, depth, scratch, jobs):
     t = Tally()
     spec = Spec(tuple(policy), variant, scratch)
@@ -432,11 +524,11 @@ def run(ctx):
     global VALS
     VALS = ctx.pick(VALSETS)
     tally = ctx.tally
-    only = ctx.only or "HS"
+    only = ctx.only or "HSK"
     bounds = {}
     if "H" in only:
         for policy in POLICIES:
-            variants = ["dense", "sparse", "selfc", "selfc_inplace"] if policy[0] in ("simple", "memF") or ctx.thorough else (["dense", "sparse", "selfc_inplace"] if policy[0] == "hdf" else ["dense", "selfc_inplace"])
+            variants = ["dense", "sparse", "selfc", "selfc_inplace", "fd"] if policy[0] in ("simple", "memF") or ctx.thorough else (["dense", "sparse", "selfc_inplace"] if policy[0] == "hdf" else ["dense", "selfc_inplace"])
             for variant in variants:
                 slow = policy[0] in ("memT", "hdf")
                 depth = (3 if slow else 4) if ctx.thorough else (2 if slow else 3)
@@ -444,9 +536,16 @@ def run(ctx):
                     depth = min(depth, 2) if variant == "sparse" else depth
                 spec = Spec(policy, variant, ctx.scratch)
                 t = Tally()
+                t0 = time.time()
                 info = explore.bfs(spec, depth, t, jobs=ctx.jobs)
-                bounds[f"{policy[0]}/tol={policy[1]}/{variant}"] = {"depth": depth, "states": t.states, "transitions": t.transitions}
+                bounds[f"{policy[0]}/tol={policy[1]}/{variant}"] = {"depth": depth, "states": t.states, "transitions": t.transitions, "seconds": round(time.time() - t0, 1)}
                 tally.merge(t)
+    if "K" in only:
+        forms = list(K_FORMS)
+        cases = [{"part": "K", "cache": c, "hist": list(h), "scratch": ctx.scratch} for c in ("memF", "memT", "hdf", "simple")
+                 for L in ((1, 2, 3, 4) if ctx.thorough else (1, 2, 3)) for h in itertools.product(forms, repeat=L)]
+        pmap(_k_case, cases, tally, jobs=ctx.jobs, chunk=25, timeout=300)
+        bounds["K"] = {"forms": forms, "max_length": 4 if ctx.thorough else 3, "histories": len(cases)}
     if "S" in only:
         names = shipped_classes()
         tally.notes["shipped_disciplines"] = [n for n, _ in names]
@@ -467,7 +566,8 @@ def run(ctx):
         "level": LEVEL,
         "rule": "H: BFS over histories of execute / execute-through-reused-arrays / defaults-only / linearize(all|subset) / reopen for each cache policy; "
         "non-trivial = a repeated input value, an in-place modified caller array or a reopen; S: every history of <= 3 operations over 4 operations on each shipped discipline, "
-        "non-trivial = two different inputs in the history",
+        "non-trivial = two different inputs in the history; K: every history of <= 3 (thorough 4) executions over 4 input forms of which 3 have identical bytes "
+        "(flat, column, complex) on exact-matching caches, non-trivial = two byte-identical forms in the history",
         "exhaustive": True,
         "bounds": bounds,
         "assumptions": ["value alphabet: 3 inputs (one within the tolerance of another) + defaults; 3 alphabets rotated by VERIF_SEED",
@@ -479,6 +579,9 @@ def replay(case, ctx):
     t = Tally()
     if case.get("part") == "S":
         _shipped_case(case, t)
+        return {"violations": [v["message"] for v in t.violations.values()]}
+    if case.get("part") == "K":
+        _k_case(dict(case, scratch=ctx.scratch), t)
         return {"violations": [v["message"] for v in t.violations.values()]}
     hist = case["history"]
     _, kind, tol, variant = hist[0]
